@@ -1017,8 +1017,6 @@ func writesFreeVar(fn *ssa.Function, fv *ssa.FreeVar) bool {
 }
 
 func (ex *Exec) execSelect(fr *Frame, st *State, in *ssa.Select) *Value {
-	// at select[#k] requires / set: clauses attached to reaching this select statement
-	ex.atObligations(fr, st, "select", in, map[string]*Value{})
 	tb := ex.tb
 	tt := in.Type().(*types.Tuple)
 	n := len(in.States)
@@ -1028,6 +1026,17 @@ func (ex *Exec) execSelect(fr *Frame, st *State, in *ssa.Select) *Value {
 		lo = -1
 	}
 	ex.assume(st, tb.And(tb.Le(tb.Int(lo), idx), tb.Lt(idx, tb.Int(int64(n)))))
+	// at select[#k] requires / set: clauses attached to reaching this select statement;
+	// $chosen is the index of the case that will be taken (-1: default), $cK / $sK the channel
+	// and (for send cases) the value of case K
+	selVars := map[string]*Value{"$chosen": ex.intV(idx, types.Typ[types.Int])}
+	for k, s := range in.States {
+		selVars[fmt.Sprintf("$c%d", k)] = ex.eval(fr, st, s.Chan)
+		if s.Send != nil {
+			selVars[fmt.Sprintf("$s%d", k)] = ex.eval(fr, st, s.Send)
+		}
+	}
+	ex.atObligations(fr, st, "select", in, selVars)
 	elems := []*Value{ex.intV(idx, types.Typ[types.Int]), ex.boolV(tb.Fresh("selok", SBool))}
 	for i := 2; i < tt.Len(); i++ {
 		hv, facts := ex.havoc(tt.At(i).Type(), "selrecv")
@@ -1129,6 +1138,7 @@ func (ex *Exec) builtin(fr *Frame, st *State, name string, args []*Value, retT t
 		ex.mapDelete(st, args[0], args[1])
 		return nil
 	case "close":
+		ex.atObligations(fr, st, "close", site, map[string]*Value{"$0": args[0]})
 		return nil
 	case "panic":
 		ex.oblige(st, "panic", ex.siteWhat(site), tb.False, site, "explicit panic")
@@ -1817,6 +1827,12 @@ func funcFieldName(v ssa.Value) string {
 	ld, ok := v.(*ssa.UnOp)
 	if !ok || ld.Op != token.MUL {
 		return ""
+	}
+	// a function value captured by a closure: funcvalue:<pkg>.<enclosing function>.<variable>
+	if fv, ok := ld.X.(*ssa.FreeVar); ok && fv.Parent() != nil && fv.Parent().Pkg != nil {
+		if _, isFn := deref(fv.Type()).Underlying().(*types.Signature); isFn {
+			return "funcvalue:" + funcShortName(fv.Parent()) + "." + fv.Name()
+		}
 	}
 	fa, ok := ld.X.(*ssa.FieldAddr)
 	if !ok {
